@@ -50,21 +50,6 @@ Proof. intros c es. unfold c20_check. apply c20_scan_dead_peer. apply init_bound
 (* ---------- 2001: a TestRequest in sequence is echoed by exactly one Heartbeat carrying its id ---------- *)
 From QF Require Import Session.LocalProofs Session.ReactionProofs.
 
-Lemma passes_hdr_ok : forall c tgt m, msg_passes_header c tgt m = true -> hdr_ok c m.
-Proof.
-  intros c tgt m H. unfold msg_passes_header, header_defect in H. unfold hdr_ok, hdr_compid_ok, hdr_time_ok.
-  destruct (hdr_begin_ok c m); cbn [negb] in H; [|discriminate].
-  destruct (mi_sender m) as [sd|]; [|discriminate]. destruct (mi_target m) as [tg|]; [|discriminate].
-  destruct tg as [|t0 tg]; [discriminate|]. destruct sd as [|s0 sd]; [discriminate|]. cbn [length Nat.eqb] in H.
-  destruct (beq_bytes (c_sender c) (t0 :: tg) && beq_bytes (c_target c) (s0 :: sd)); cbn [negb] in H; [|discriminate].
-  split; [reflexivity|]. split; [reflexivity|]. split.
-  - destruct (c_skip_latency c); [reflexivity|]. cbn [orb].
-    destruct (mi_stime m) as [| |d]; try discriminate.
-    destruct (Z.leb_spec (c_max_latency c) d); cbn [orb] in H; [discriminate|].
-    destruct (Z.leb_spec d (- c_max_latency c)); [discriminate|].
-    apply andb_true_iff. split; apply Z.ltb_lt; lia.
-  - split; intros x Hx; inversion Hx; discriminate.
-Qed.
 
 Lemma plain_logged_on_handler : forall st s m, is_logged_on st = true -> sh_is_resend (shape_of st) = false ->
   state_fix_msg_in st s m = in_session_fix_msg_in s m.
